@@ -196,9 +196,57 @@ def solver_slack(scn, ref, times):
     return out
 
 
+def on_switching_point(scn, res, ref, times):
+    """cells (t, link) at which a link with status logic of its own (check-valve pipe, pump, PRV/PSV/FCV) sits on its switching point in
+    BOTH runs: next to no flow, next to no head difference across it, or (valves) the controlled quantity at its setting.  Two runs that
+    reach the step from different Newton starting points may then legitimately report different statuses, and the flow they report for the
+    links between the same two nodes is not comparable in that row.  -> (set of (t, link) status cells, set of (t, link) flow cells)"""
+    st_cells, q_cells = set(), set()
+    elev = dict((n['id'], n.get('elev', 0.0)) for n in scn['nodes'])
+    pairs = {}
+    for l in scn['links']:
+        pairs.setdefault(frozenset((l['a'], l['b'])), []).append(l['id'])
+    for l in scn['links']:
+        logic = (l['type'] == 'pipe' and l.get('cv')) or l['type'] == 'pump' or (l['type'] == 'valve' and l.get('vtype') in ('PRV', 'PSV', 'FCV'))
+        if not logic:
+            continue
+        lid = l['id']
+        for t in times:
+            try:
+                sa, sb = float(res.link['status'].loc[t, lid]), float(ref.link['status'].loc[t, lid])
+            except Exception:  # noqa
+                continue
+            if sa == sb:
+                continue
+            ok = True
+            for tab in (res, ref):
+                q = abs(float(tab.link['flowrate'].loc[t, lid]))
+                dh = abs(float(tab.node['head'].loc[t, l['a']]) - float(tab.node['head'].loc[t, l['b']]))
+                near = q <= 1e-4 or dh <= 1e-2
+                if l['type'] == 'valve':
+                    sv = float(l.get('setting') or 0.0)
+                    try:
+                        sv = float(tab.link['setting'].loc[t, lid])
+                    except Exception:  # noqa
+                        pass
+                    if l['vtype'] == 'PRV':
+                        near = near or abs(float(tab.node['head'].loc[t, l['b']]) - elev.get(l['b'], 0.0) - sv) <= 1e-2
+                    elif l['vtype'] == 'PSV':
+                        near = near or abs(float(tab.node['head'].loc[t, l['a']]) - elev.get(l['a'], 0.0) - sv) <= 1e-2
+                    else:
+                        near = near or abs(q - sv) <= 1e-5 + 1e-3 * abs(sv)
+                ok = ok and near
+            if ok:
+                st_cells.add((int(t), lid))
+                for other in pairs[frozenset((l['a'], l['b']))]:
+                    q_cells.add((int(t), other))
+    return st_cells, q_cells
+
+
 def compare_tables(res, ref, times, rtol=1e-6, atol=1e-7, keys=None, exact_keys=('status',), label='prefix',
-                   slack=None, col_atol=None):
-    """res and ref must agree on the rows `times`.  slack: optional dict key -> (atol, rtol)."""
+                   slack=None, col_atol=None, skip_status=None, skip_flow=None):
+    """res and ref must agree on the rows `times`.  slack: optional dict key -> (atol, rtol).  skip_status / skip_flow: cells (t, link) left
+    out of the status (and setting) / flow comparison (see on_switching_point)."""
     out = []
     times = [int(t) for t in times]
     for grp, allkeys in (('node', NODE_KEYS), ('link', LINK_KEYS)):
@@ -229,6 +277,10 @@ def compare_tables(res, ref, times, rtol=1e-6, atol=1e-7, keys=None, exact_keys=
                 elif col_atol is not None and k == 'demand':
                     at = np.array([max(at, col_atol.get(('node', cn), at)) for cn in cols])[None, :]
                 bad = np.where(np.abs(x - y) > at + rt * np.abs(y))
+            sk = skip_status if k in ('status', 'setting') else (skip_flow if k in ('flowrate', 'velocity') else None)
+            if sk and len(bad[0]):
+                keep = [n_ for n_ in range(len(bad[0])) if (times[int(bad[0][n_])], cols[int(bad[1][n_])]) not in sk]
+                bad = (bad[0][keep], bad[1][keep])
             if len(bad[0]):
                 i, j = int(bad[0][0]), int(bad[1][0])
                 out.append(V(label + '.differs', grp + '.' + k,
